@@ -11,7 +11,7 @@ class C03(core.Prop):
                  "with the date arithmetic of the statement (closed forms, exact equality on dyadic dates)")
     rule = ("Programs of 1-5 actors x <=8 operations on a sharing-free platform: sleep_for / sleep_until, execs (with and without time-out), "
             "kernel timers, timed semaphore / condition-variable / message-queue / mailbox waits, matched put/get pairs, disk I/O, join with "
-            "time-out, one kill time per actor (actor property or set_kill_time), 0-2 on_exit callbacks, daemons.  Durations: 0, "
+            "time-out, kill times (actor property and/or set_kill_time, the last one wins), 0-2 on_exit callbacks, daemons.  Durations: 0, "
             "sub-precision (1e-12..2e-9), quarters (coinciding dates), multiples of 2^-10, arbitrary doubles; half of the programs are "
             "all-dyadic (then every assertion is an exact equality).  Oracle: (a) every time advance is >= 0, the clock is the running sum of the advances and "
             "every record bears the current clock; (b) creation <= start <= finish <= now for every activity; (c) sleep_for(d) returns at "
@@ -22,7 +22,7 @@ class C03(core.Prop):
     assumptions = ["tolerance 0 while every clock value is a multiple of 2^-30 (exact arithmetic); 1 ulp afterwards (the clock advances by now += (date - now))",
                    "events carried by model actions (sleeps, semaphore/condvar/join time-outs) may complete up to precision/timing (1e-9 s) early when "
                    "ANOTHER actor's event occurs in that window (documented: 'epsilon used to update and compare timings'); accepted only in that case",
-                   "kill times: at most one per actor (setting a second one is C11's domain)",
+                   "several kill times: the last one set in the future wins (semantics of the fix 6bf89374c4)",
                    "default configuration (lazy updates, contexts/nthreads 1)"]
 
     def strategy(self, tier):
